@@ -185,7 +185,7 @@ def infeasible_items(tier):
         add(f"no-allocation alap={alap}", {"alap": alap, "resources": R, "tasks": [{"id": "a", "effort": 90}, T("b", deps=["a"])]})
         add(f"empty-container alap={alap}", {"alap": alap, "resources": R, "tasks": [{"id": "g", "raw": []}, T("b", deps=["g"])]})
         add(f"alternative-unknown alap={alap}", {"alap": alap, "resources": R, "tasks": [{"id": "a", "effort": 90, "alloc": ["r1"], "alt": ["ghost"]}]})
-        for gap in ("0min", "100d", "3w", "1y"):
+        for gap in ("0min", "100d", "3w", "1y", "9000y", "1000000y", "0.001min"):
             add(f"gap {gap} alap={alap}", {"alap": alap, "resources": R, "tasks": [T("a"), T("b", deps=[{"ref": "a", "gap": gap}])]})
         add(f"onstart-cycle alap={alap}", {"alap": alap, "resources": R, "tasks": [T("a", deps=[{"ref": "b", "onstart": True}]), T("b", deps=[{"ref": "a", "onstart": True}])]})
     for alap in (False, True):
@@ -210,7 +210,7 @@ def infeasible_items(tier):
                                                                              {"id": "c", "effort": 60, "alloc": ["rp"], "alt": ["rb"], "end": "2025-01-10-17:00"} if alap else {"id": "c", "effort": 6000, "alloc": ["rp"], "alt": ["rb"]}, T("b")]})
     # every state vector of three candidates (primary, first and second alternative) x short / month-long effort
     import itertools as _it
-    for kinds in _it.product(("ok", "busy", "never", "slow"), repeat=3):
+    for kinds in _it.product(("ok", "busy", "never", "slow", "zero"), repeat=3):
         for eff_min in (90, 14400):
             for alap in (False, True):
                 rs, extra = [], []
@@ -220,6 +220,8 @@ def infeasible_items(tier):
                         r["leaves"] = [{"k": "leaves", "type": "annual", "a": "2025-01-01", "b": "2026-01-01"}]
                     elif kd == "slow":
                         r["eff"] = 0.3 if eff_min > 90 else 0.01
+                    elif kd == "zero":
+                        r["eff"] = 0.0   # legal in the language (rooms, equipment)
                     elif kd == "busy":
                         extra.append({"id": f"hold{i}", "effort": 2400, "alloc": [f"c{i}"], "prio": 900})
                     rs.append(r)
